@@ -899,657 +899,6 @@ class Pfp(App):
         return out
 
     def prepare(self, path, uniq):
-        """per-run private files; returns (path to pass, [files to remove])"""
-        return path, []
-
-
-def report_node(n, j, family):
-    """node whose distance the run reports: rotates with the thread-count
-    index j so that over t=1,2,4 every non-source node of an n<=4 graph is
-    reported once (n=4: 1,2,3; n=3: 1,2,0; n=2: 1,0,1)."""
-    if family == "enum" or n <= 4:
-        return (j + 1) % n
-    return (n - 1, n // 2, 1)[j]
-
-
-class DistApp(App):
-    """bfs / sssp: one distance + (#visited, max, sum) per run"""
-    weighted = False
-
-    def argv(self, path, inp, var, t, j):
-        r = report_node(inp.g.n, j, inp.g.family)
-        return [path] + var.args + ["-startNode=%d" % inp.p["src"],
-                                    "-reportNode=%d" % r, "-t=%d" % t]
-
-    def parse(self, out):
-        m = re.search(r"Node (\d+) has distance (\d+)", out)
-        vis = rx_int(r"# visited nodes is (\d+)", out)
-        mx = rx_int(r"Max distance is (\d+)", out)
-        sm = rx_int(r"Sum of visited distances is (\d+)", out)
-        if not m or vis is None or mx is None or sm is None:
-            return None
-        d = int(m.group(2))
-        return dict(node=int(m.group(1)), dist=("inf" if d >= APP_INF else d),
-                    visited=vis, max=mx, sum=sm)
-
-    def reference(self, inp, var):
-        f = refs.sssp_dist if self.weighted else refs.bfs_levels
-        d = f(inp.g, inp.p["src"])
-        return dict(dist=d, summ=refs.dist_summary(d))
-
-    def check(self, ans, ref, inp, var, t, j):
-        r = report_node(inp.g.n, j, inp.g.family)
-        if ans["node"] != r:
-            return ("wrong-report-node", "asked node %d got %d" %
-                    (r, ans["node"]))
-        exp = ref["dist"][r]
-        exp = "inf" if exp == INF else exp
-        if ans["dist"] != exp:
-            return ("wrong-distance", "node %d: app %s, true %s" %
-                    (r, ans["dist"], exp))
-        s = ref["summ"]
-        if ans["visited"] != s["visited"]:
-            return ("wrong-visited-count", "app %d, true %d" %
-                    (ans["visited"], s["visited"]))
-        if ans["max"] != s["max"] or ans["sum"] != s["sum"]:
-            return ("wrong-distance-summary", "app max=%d sum=%d, true max=%d "
-                    "sum=%d (all true distances: %s)" %
-                    (ans["max"], ans["sum"], s["max"], s["sum"], ref["dist"]))
-        return None
-
-    def outcome(self, ans):
-        return "%s/%s/%s/%s" % (ans["dist"], ans["visited"], ans["max"],
-                                ans["sum"])
-
-    def _inputs(self, tier, k3, k4, kl3):
-        gs = []
-        if tier == "quick":
-            gs += D(1) + D(2) + D(3, k3) + stride(D(1, 1, True) +
-                                                  D(2, 1, True), 3)
-            gs += S(["dpath64", "grid4x8", "dheavytail64", "loops6",
-                     "clique5+path6+2iso", "star601"])
-        else:
-            gs += D(1) + D(2) + D(3) + D(4, k4)
-            gs += D(1, 1, True) + D(2, 1, True) + D(3, kl3, True)
-            st = S()
-            gs += st
-            gs += [cg.with_parallel(g) for g in S(["dag10", "shortcut21",
-                                                   "grid3x3"])]
-        out = [Input(g, src=0) for g in gs]
-        # the source with the LARGEST id as well (processing order follows
-        # ids, so this is not the same run up to relabelling)
-        more = D(3, 11) if tier == "quick" else D(2) + D(3) + D(4, 61)
-        out += [Input(g, src=g.n - 1) for g in more]
-        return out
-
-
-class Bfs(DistApp):
-    name = "bfs"
-    target = "bfs-cpu"
-    domain = ("any directed graph with >=1 node (self loops, parallel edges "
-              "allowed), startNode/reportNode < n; source fixed to node 0 "
-              "(all labelled graphs are enumerated, so every rooted shape "
-              "occurs)")
-    oracle = ("reported node's level == BFS level (networkx), #visited, max "
-              "and sum of levels equal; reported node rotates over t")
-
-    def variants(self):
-        return [Variant("%s/%s" % (a, e), ["-algo=" + a, "-exec=" + e])
-                for e in ("PARALLEL", "SERIAL")
-                for a in ("SyncTile", "Sync", "AsyncTile", "Async")]
-
-    def inputs(self, tier):
-        return self._inputs(tier, 5, 29, 13)
-
-
-class Sssp(DistApp):
-    name = "sssp"
-    target = "sssp-cpu"
-    weighted = True
-    domain = ("any directed graph with uint32 edge weights, >=1 node; weights "
-              "from {1,2,7} by a fixed rule of the endpoints (with_parallel "
-              "adds heavier duplicates)")
-    oracle = ("reported node's distance == Dijkstra (networkx), #visited, max "
-              "and sum of distances equal; reported node rotates over t")
-
-    def variants(self):
-        v = [Variant(a, ["-algo=" + a]) for a in
-             ("AutoAlgo", "deltaStep", "deltaTile", "deltaStepBarrier", "serDelta",
-              "serDeltaTile", "dijkstra", "dijkstraTile", "topo", "topoTile")]
-        # -delta is the log2 bucket width; default 13 puts every distance of
-        # these inputs in one bucket, 1 makes buckets matter
-        v += [Variant(a + "/delta=1", ["-algo=" + a, "-delta=1"]) for a in
-              ("deltaStep", "deltaStepBarrier", "serDelta")]
-        return v
-
-    def inputs(self, tier):
-        if tier == "quick":
-            gs = D(1) + D(2) + D(3, 7)
-            gs += S(["shortcut21", "grid4x8", "dheavytail64", "star601"])
-            return [Input(g, src=0) for g in gs] + \
-                [Input(g, src=2) for g in D(3, 11)]
-        return self._inputs(tier, 7, 37, 31)
-
-
-class CC(App):
-    name = "cc"
-    target = "connected-components-cpu"
-    edge_size = 0
-    domain = ("symmetric graph (-symmetricGraph), >=1 node; self loops and "
-              "parallel edges allowed")
-    oracle = ("number of components, number of components of size >=2 and "
-              "size of the largest == union-find; per-node labels are not "
-              "printed by the app")
-
-    def variants(self):
-        return [Variant(a, ["-algo=" + a]) for a in
-                ("EdgetiledAsync", "Async", "EdgeAsync", "BlockedAsync",
-                 "LabelProp", "Serial", "Sync", "Afforest", "EdgeAfforest",
-                 "EdgetiledAfforest")]
-
-    def inputs(self, tier):
-        if tier == "quick":
-            gs = U(1) + U(2) + U(3) + U(4, 7) + stride(U(2, 1, True), 3)
-            gs += S(["clique5+path6+2iso", "grid4x8", "heavytail64",
-                     "star601"], False)
-        else:
-            gs = U(1) + U(2) + U(3) + U(4) + U(5, 7)
-            gs += stride(U(1, 1, True) + U(2, 1, True) + U(3, 1, True), 3)
-            gs += S(None, False)
-            gs += [cg.with_parallel(g) for g in S(["barbell6", "grid3x3"],
-                                                  False)]
-        return [Input(g) for g in gs]
-
-    def argv(self, path, inp, var, t, j):
-        return [path, "-symmetricGraph"] + var.args + ["-t=%d" % t]
-
-    def parse(self, out):
-        tot = rx_int(r"Total components: (\d+)", out)
-        m = re.search(r"Number of non-trivial components: (\d+) "
-                      r"\(largest size: (\d+)", out)
-        if tot is None or not m:
-            return None
-        return dict(total=tot, nontrivial=int(m.group(1)),
-                    largest=int(m.group(2)))
-
-    def reference(self, inp, var):
-        return refs.components(inp.g)
-
-    def check(self, ans, ref, inp, var, t, j):
-        if ans["total"] != ref["total"]:
-            return ("wrong-component-count", "app %d, union-find %d" %
-                    (ans["total"], ref["total"]))
-        if ans["nontrivial"] != ref["nontrivial"] or \
-                ans["largest"] != ref["largest"]:
-            return ("wrong-component-sizes", "app nontrivial=%d largest=%d, "
-                    "union-find nontrivial=%d largest=%d" %
-                    (ans["nontrivial"], ans["largest"], ref["nontrivial"],
-                     ref["largest"]))
-        return None
-
-
-class Mst(App):
-    name = "mst"
-    target = "minimum-spanningtree-cpu"
-    domain = ("graph with int32 edge weights and >=1 edge (an edgeless graph "
-              "is rejected by the app: 'Edge weights of graph out of range'); "
-              "variant sym: symmetric input + -symmetricGraph; variant dir: "
-              "any directed graph, the app symmetrises it")
-    oracle = ("MST weight == Kruskal on the underlying undirected multigraph; "
-              "number of trees == number of components; tree edges == n - "
-              "trees")
-
-    def variants(self):
-        return [Variant("Parallel/sym", ["-algo=parallel", "-symmetricGraph"],
-                        pred=lambda i: not i.p.get("dir") and
-                        i.g.is_symmetric()),
-                Variant("Parallel/dir", ["-algo=parallel"],
-                        pred=lambda i: i.p.get("dir", False))]
-
-    def inputs(self, tier):
-        if tier == "quick":
-            sym = U(2) + U(3) + U(4) + S(
-                ["barbell6", "grid4x8", "heavytail64", "clique5+path6+2iso",
-                 "clique16", "star601"], False)
-            dr = D(2) + D(3) + S(["dag10", "dheavytail64", "dgrid6x6",
-                                  "loops6"])
-        else:
-            sym = U(2) + U(3) + U(4) + U(5, 3) + S(None, False)
-            sym += stride(U(2, 1, True) + U(3, 1, True), 5)
-            sym += [cg.with_parallel(g) for g in S(["barbell6", "grid3x3"],
-                                                   False)]
-            dr = D(2) + D(3) + D(4, 11) + [g for g in S()
-                                           if not g.is_symmetric()]
-            dr += [cg.with_parallel(g) for g in S(["dag10"])]
-        out = [Input(g) for g in sym if g.m >= 1]
-        out += [Input(g, dir=True) for g in dr if g.m >= 1]
-        return out
-
-    def argv(self, path, inp, var, t, j):
-        return [path] + var.args + ["-t=%d" % t]
-
-    def parse(self, out):
-        w = rx_int(r"MST weight: (\d+)", out)
-        tr = rx_int(r"Num trees: (\d+)", out)
-        te = rx_int(r"Tree edges: (\d+)", out)
-        if w is None or tr is None or te is None:
-            return None
-        return dict(weight=w, trees=tr, edges=te)
-
-    def reference(self, inp, var):
-        return refs.kruskal(inp.g)
-
-    def check(self, ans, ref, inp, var, t, j):
-        if ans["trees"] != ref["trees"] or ans["edges"] != ref["edges"]:
-            return ("wrong-forest-shape", "app trees=%d edges=%d, true "
-                    "trees=%d edges=%d" % (ans["trees"], ans["edges"],
-                                           ref["trees"], ref["edges"]))
-        if ans["weight"] != ref["weight"]:
-            return ("wrong-weight", "app %d, Kruskal %d" %
-                    (ans["weight"], ref["weight"]))
-        return None
-
-
-def simple_sym(tier, big_names, k4, k5):
-    if tier == "quick":
-        gs = U(1) + U(2) + U(3) + U(4, k4) + S(big_names, False)
-    else:
-        gs = U(1) + U(2) + U(3) + U(4) + U(5, k5) + S(None, False)
-    return gs
-
-
-class Tri(App):
-    name = "tri"
-    target = "triangle-counting-cpu"
-    edge_size = 0
-    domain = ("simple symmetric graph (-symmetricGraph; no self loops, no "
-              "duplicate edges), >=1 node, adjacency sorted as graph-convert "
-              "writes it")
-    oracle = "NumTriangles == brute force over node triples"
-
-    def variants(self):
-        return [Variant("%s%s" % (a, "/relabel" if r else ""),
-                        ["-algo=" + a] + (["-relabel"] if r else []))
-                for r in (False, True)
-                for a in ("orderedCount", "nodeiterator", "edgeiterator")]
-
-    def inputs(self, tier):
-        return [Input(g) for g in simple_sym(
-            tier, ["barbell6", "clique16", "heavytail64", "grid4x8",
-                   "star601"], 3, 5)]
-
-    def argv(self, path, inp, var, t, j):
-        return [path, "-symmetricGraph"] + var.args + ["-t=%d" % t]
-
-    def parse(self, out):
-        v = rx_int(r"Num ?Triangles: (\d+)", out)
-        return None if v is None else dict(triangles=v)
-
-    def reference(self, inp, var):
-        return refs.triangles(inp.g)
-
-    def check(self, ans, ref, inp, var, t, j):
-        if ans["triangles"] != ref:
-            return ("wrong-count", "app %d, brute force %d" %
-                    (ans["triangles"], ref))
-        return None
-
-
-class KCore(App):
-    name = "kcore"
-    target = "k-core-cpu"
-    edge_size = 0
-    domain = ("simple symmetric graph (-symmetricGraph), >=1 node, -kcore=k "
-              "with k in 1..5 (k is part of the input)")
-    oracle = ("'Number of nodes in the k-core' == nodes surviving repeated "
-              "deletion of degree<k nodes (brute-force peeling)")
-
-    def variants(self):
-        return [Variant(a, ["-algo=" + a]) for a in ("Sync", "Async")]
-
-    def inputs(self, tier):
-        out = []
-        if tier == "quick":
-            for g in U(1) + U(2) + U(3):
-                out += [Input(g, k=1), Input(g, k=2)]
-            out += [Input(g, k=2) for g in U(4)]
-            out += [Input(g, k=3) for g in U(4, 5)]
-            for g in S(["barbell6", "heavytail64", "grid4x8", "star601"],
-                       False):
-                out.append(Input(g, k=2 if g.name != "barbell6" else 5))
-        else:
-            for g in U(1) + U(2) + U(3) + U(4):
-                out += [Input(g, k=k) for k in (1, 2, 3)]
-            for g in U(5, 11):
-                out += [Input(g, k=k) for k in (2, 3)]
-            for g in S(None, False):
-                out += [Input(g, k=k) for k in (2, 3, 5)]
-        return out
-
-    def argv(self, path, inp, var, t, j):
-        return [path, "-symmetricGraph", "-kcore=%d" % inp.p["k"]] + \
-            var.args + ["-t=%d" % t]
-
-    def parse(self, out):
-        m = re.search(r"Number of nodes in the (\d+)-core is (\d+)", out)
-        return None if not m else dict(k=int(m.group(1)),
-                                       alive=int(m.group(2)))
-
-    def reference(self, inp, var):
-        return refs.kcore_size(inp.g, inp.p["k"])
-
-    def check(self, ans, ref, inp, var, t, j):
-        if ans["k"] != inp.p["k"] or ans["alive"] != ref:
-            return ("wrong-count", "app %d nodes in the %d-core, peeling %d" %
-                    (ans["alive"], ans["k"], ref))
-        return None
-
-    def outcome(self, ans):
-        return str(ans["alive"])
-
-
-PR_SLACK_REL = 2e-5   # float32 accumulation + 6 significant digits printed
-PR_SLACK_ABS = 2e-7
-
-
-class PageRank(App):
-    """Reference x* = fixed point of x = 0.85 P^T x + b (dangling nodes leak,
-    as in the apps), power iteration in float64.  Acceptance per printed node:
-      Topo (pull):  |x - x*| <= alpha*tol/(1-alpha)     [any in-place sweep
-                    whose total change is <= tol has L1 distance <= that]
-      push Async/Sync: 0 <= x* - x <= tol * x*/0.15     [what is not applied
-                    is a residual <= tol per node; (I-M)^-1 tol*1 = tol*x*/b]
-      pull Residual: 0 <= x* - x <= K * tol * x*/0.15 with K = 12: this
-                    variant DROPS a sub-tolerance residual whenever a new one
-                    arrives (documented in its source: 'not reflected'), so
-                    only a multiple can be promised; K is 3x the largest
-                    ratio observed over the fixed input set (deterministic:
-                    the algorithm is bulk-synchronous without races)
-    plus PR_SLACK for float32 / printing."""
-    edge_size = 0
-    base_topo = False
-
-    def tol_variants(self, algos):
-        out = []
-        for a in algos:
-            for tol in ("0.001", "1e-05"):
-                out.append(Variant("%s/tol=%s" % (a, tol),
-                                   ["-algo=" + a, "-tolerance=" + tol],
-                                   algo=a, tol=float(tol)))
-        return out
-
-    def inputs(self, tier):
-        if tier == "quick":
-            gs = D(1) + D(2) + D(3, 3) + stride(D(1, 1, True) +
-                                                D(2, 1, True), 3)
-            gs += S(["dag10", "dheavytail64", "grid4x8", "star601"])
-        else:
-            gs = D(1) + D(2) + D(3) + D(4, 29)
-            gs += D(1, 1, True) + D(2, 1, True) + D(3, 13, True)
-            gs += S()
-            gs += [cg.with_parallel(g) for g in S(["dag10"])]
-        return [Input(g) for g in gs]
-
-    def parse(self, out):
-        m = re.search(r"Rank PageRank Id\n((?:\d+: \S+ \d+\n)*)", out)
-        if not m:
-            return None
-        top = []
-        for line in m.group(1).splitlines():
-            a = line.split()
-            top.append((int(a[2]), float(a[1])))
-        ans = dict(top=top)
-        for k, pat in (("max", r"Max rank is (\S+)"),
-                       ("min", r"Min rank is (\S+)"),
-                       ("sum", r"Sum is (\S+)")):
-            mm = re.search(pat, out)
-            if mm:
-                ans[k] = float(mm.group(1))
-        return ans
-
-    def refkey(self, var):
-        return "topo" if var.kw["algo"] == "Topo" else "res"
-
-    def reference(self, inp, var):
-        n = inp.g.n
-        base = 0.15 / n if var.kw["algo"] == "Topo" else 0.15
-        return dict(x=refs.pagerank(inp.g, base), base=base)
-
-    def bounds(self, var, xs, base):
-        """(lo, hi) allowed for app - x* at a node whose true value is xs"""
-        tol = var.kw["tol"]
-        slack = PR_SLACK_REL * abs(xs) + PR_SLACK_ABS
-        a = var.kw["algo"]
-        if a == "Topo":
-            b = refs.ALPHA * tol / (1 - refs.ALPHA)
-            return (-b - slack, b + slack)
-        k = 12.0 if a == "Residual" else 1.0
-        return (-(k * tol * xs / base) - slack, slack)
-
-    def check(self, ans, ref, inp, var, t, j):
-        x = ref["x"]
-        n = inp.g.n
-        top = ans["top"]
-        if len(top) != min(n, 20):
-            return ("wrong-output", "printed %d ranks for %d nodes" %
-                    (len(top), n))
-        if len(set(i for i, _ in top)) != len(top) or \
-                any(i >= n for i, _ in top):
-            return ("wrong-output", "bad node ids in %s" % top)
-        worst = 0.0
-        for (i, v) in top:
-            lo, hi = self.bounds(var, x[i], ref["base"])
-            d = v - x[i]
-            if not (lo <= d <= hi):
-                return ("rank-out-of-tolerance", "node %d: app %.7g, power "
-                        "iteration %.9g, difference %.3g outside [%.3g, "
-                        "%.3g]" % (i, v, x[i], d, lo, hi))
-            if var.kw["algo"] != "Topo" and x[i] > 0:
-                worst = max(worst, (x[i] - v) /
-                            (var.kw["tol"] * x[i] / ref["base"]))
-        ans["_ratio"] = worst
-        vals = [v for _, v in top]
-        if any(vals[k] < vals[k + 1] for k in range(len(vals) - 1)):
-            return ("wrong-output", "ranks not sorted: %s" % top)
-        if "max" in ans:
-            mx, mn, sm = max(x), min(x), sum(x)
-            lo, hi = self.bounds(var, mx, ref["base"])
-            if not (lo <= ans["max"] - mx <= hi):
-                return ("rank-out-of-tolerance", "max rank app %.7g true "
-                        "%.9g" % (ans["max"], mx))
-            lo, hi = self.bounds(var, mn, ref["base"])
-            if not (lo <= ans["min"] - mn <= hi):
-                return ("rank-out-of-tolerance", "min rank app %.7g true "
-                        "%.9g" % (ans["min"], mn))
-            lo = sum(self.bounds(var, v, ref["base"])[0] for v in x)
-            hi = sum(self.bounds(var, v, ref["base"])[1] for v in x)
-            if var.kw["algo"] == "Topo":  # L1 bound holds for the sum as such
-                b = self.bounds(var, 0.0, ref["base"])
-                lo, hi = b[0] - PR_SLACK_REL * sm, b[1] + PR_SLACK_REL * sm
-            if not (lo <= ans["sum"] - sm <= hi):
-                return ("rank-out-of-tolerance", "sum of ranks app %.7g true "
-                        "%.9g (allowed %.3g..%.3g)" %
-                        (ans["sum"], sm, lo, hi))
-        return None
-
-    def outcome(self, ans):
-        return " ".join("%d:%.3g" % (i, v) for i, v in ans["top"][:6])
-
-
-class PrPull(PageRank):
-    name = "pr-pull"
-    target = "pagerank-pull-cpu"
-    domain = ("TRANSPOSE of any directed graph with >=1 node "
-              "(-transposedGraph); self loops and parallel edges count as "
-              "links; tolerance 1e-3 (default) and 1e-5")
-    oracle = ("every printed rank (all nodes if n<=20, else top 20, + max, "
-              "min, sum) within the tolerance-derived bound of float64 power "
-              "iteration; see class PageRank")
-
-    def variants(self):
-        return self.tol_variants(("Residual", "Topo"))
-
-    def file_graph(self, inp):
-        g = inp.g
-        return cg.G(g.name + "^T", g.n, [(v, u, w) for (u, v, w) in g.edges],
-                    g.family)
-
-    def argv(self, path, inp, var, t, j):
-        return [path, "-transposedGraph"] + var.args + ["-t=%d" % t]
-
-
-class PrPush(PageRank):
-    name = "pr-push"
-    target = "pagerank-push-cpu"
-    domain = ("any directed graph with >=1 node; tolerance 1e-3 (default) "
-              "and 1e-5")
-    oracle = PrPull.oracle
-
-    def variants(self):
-        return self.tol_variants(("Async", "Sync"))
-
-    def argv(self, path, inp, var, t, j):
-        return [path] + var.args + ["-t=%d" % t]
-
-
-class Mis(App):
-    name = "mis"
-    target = "maximal-independentset-cpu"
-    edge_size = 0
-    domain = "simple symmetric graph (-symmetricGraph), >=1 node"
-    oracle = ("the app prints only the CARDINALITY of its set: it must be the "
-              "size of SOME maximal independent set of the input -- exact set "
-              "of feasible sizes by enumerating all maximal independent sets "
-              "(components <=24 nodes), else the interval [independent "
-              "domination number, independence number] by MILP; membership "
-              "itself is not observable from outside")
-
-    def variants(self):
-        return [Variant(a, ["-algo=" + a]) for a in
-                ("prio", "edgetiledprio", "serial", "pull", "nondet",
-                 "detBase")]
-
-    def inputs(self, tier):
-        return [Input(g) for g in simple_sym(
-            tier, ["barbell6", "K4,5", "heavytail64", "grid4x8", "star601"],
-            3, 5)]
-
-    def argv(self, path, inp, var, t, j):
-        return [path, "-symmetricGraph"] + var.args + ["-t=%d" % t]
-
-    def parse(self, out):
-        v = rx_int(r"Cardinality of maximal independent set: (\d+)", out)
-        return None if v is None else dict(card=v)
-
-    def reference(self, inp, var):
-        s, exact = refs.mis_sizes(inp.g)
-        return dict(sizes=sorted(s), exact=exact)
-
-    def check(self, ans, ref, inp, var, t, j):
-        if ans["card"] not in ref["sizes"]:
-            s = ref["sizes"]
-            txt = str(s) if len(s) <= 12 else "%d..%d" % (s[0], s[-1])
-            return ("impossible-cardinality", "app's set has %d nodes; "
-                    "maximal independent sets of this graph have sizes %s%s" %
-                    (ans["card"], txt, "" if ref["exact"] else " (bounds)"))
-        return None
-
-
-class Matching(App):
-    name = "matching"
-    target = "maximum-cardinality-matching-cpu"
-    edge_size = 4
-    domain = ("bipartite graph from file as the source documents it: the "
-              "first numA nodes are side A and carry all edges (A -> B), B "
-              "nodes have none; >=1 edge; int32 edge data 1 (the Preflow-push "
-              "variant reads it as capacity); -symmetricGraph is demanded by "
-              "the app")
-    oracle = "'Matching of cardinality' == Hopcroft-Karp (networkx)"
-
-    def variants(self):
-        v = [Variant("%s/%s" % (a, e), ["-" + a, "-" + e])
-             for e in ("parallel", "serial")
-             for a in ("abmpAlgo", "pfpAlgo", "ffAlgo")]
-        # the app's own verifier is wrong for pfpAlgo (it aborts on correct
-        # matchings, key matching:pfpAlgo/*:self-verification-failed); with
-        # -noverify the answer itself is still compared with Hopcroft-Karp
-        v += [Variant("pfpAlgo/%s/noverify" % e, ["-pfpAlgo", "-" + e,
-                                                  "-noverify"])
-              for e in ("parallel", "serial")]
-        return v
-
-    def inputs(self, tier):
-        if tier == "quick":
-            gs = bip_enum([(1, 1), (1, 2), (2, 1), (2, 2)])
-            gs += bip_enum([(3, 3)], 79)
-            gs += [g for g in bip_struct()
-                   if g.name in ("bladder16", "bcrowd12", "bheavy32")]
-        else:
-            gs = bip_enum([(1, 1), (1, 2), (2, 1), (2, 2), (1, 3), (3, 1),
-                           (2, 3), (3, 2)])
-            gs += bip_enum([(3, 3)], 5)
-            gs += bip_struct()
-        return [Input(g) for g in gs if g.m >= 1]
-
-    def argv(self, path, inp, var, t, j):
-        return [path, "-symmetricGraph", "-inputType=fromFile"] + var.args + \
-            ["-t=%d" % t]
-
-    def parse(self, out):
-        v = rx_int(r"Matching of cardinality: (\d+)", out)
-        return None if v is None else dict(size=v)
-
-    def reference(self, inp, var):
-        return refs.matching_size(inp.g)
-
-    def check(self, ans, ref, inp, var, t, j):
-        if ans["size"] != ref:
-            return ("wrong-size", "app %d, Hopcroft-Karp %d" %
-                    (ans["size"], ref))
-        return None
-
-
-class Pfp(App):
-    name = "preflowpush"
-    target = "preflowpush-cpu"
-    edge_size = 4
-    domain = ("directed graph with int32 capacities, no parallel edges (the "
-              "app asserts 'Adjacency list cannot have duplicates'), self "
-              "loops allowed (dropped by the app), >=2 nodes, source=0 != "
-              "sink=n-1 (structured graphs: also a second pair); "
-              "-useSymmetricDirectly only on simple symmetric inputs")
-    oracle = "'Flow is' == maximum flow value (networkx)"
-
-    def variants(self):
-        sym = lambda i: i.g.is_symmetric() and not i.g.has_loop()  # noqa: E731
-        return [Variant("nondet", []),
-                Variant("detBase", ["-detBase"]),
-                Variant("detDisjoint", ["-detDisjoint"]),
-                Variant("nondet/HLOrder", ["-useHLOrder"]),
-                Variant("nondet/unitCapacity", ["-useUnitCapacity"],
-                        unit=True),
-                Variant("nondet/relabel=1", ["-relabel=1"]),
-                Variant("nondet/symmetricDirectly", ["-useSymmetricDirectly"],
-                        pred=sym, unit=True)]
-
-    def inputs(self, tier):
-        out = []
-        if tier == "quick":
-            gs = D(2) + D(3, 3) + U(3)
-            big = S(["dag10", "layers4x8", "dgrid6x6", "grid3x3"])
-        else:
-            gs = D(2) + D(3) + D(4, 29) + U(3) + U(4) + \
-                stride(D(2, 1, True) + D(3, 1, True), 31)
-            big = [g for g in S() if g.n <= 64 and g.m >= 1]
-        for g in gs:
-            out.append(Input(g, s=0, t=g.n - 1))
-        for g in big:
-            out.append(Input(g, s=0, t=g.n - 1))
-            if tier != "quick" and g.n >= 4:
-                out.append(Input(g, s=g.n // 2, t=1))
-        return out
-
-    def prepare(self, path, uniq):
         # the app writes "<input>.pfp" next to its input when it is missing:
         # give every process its own name so concurrent runs never share one
         p = os.path.join(os.path.dirname(path), "r%s.gr" % uniq)
